@@ -19,6 +19,17 @@
 #include <sched.h>
 #include <time.h>
 
+// sanitizer defaults for every harness: distinct exit code, no leak checking, stop at the first report, print stacks
+extern "C" __attribute__((used, visibility("default"))) const char* __tsan_default_options() {
+    return "exitcode=77:halt_on_error=1:report_signal_unsafe=0:history_size=4:second_deadlock_stack=1";
+}
+extern "C" __attribute__((used, visibility("default"))) const char* __asan_default_options() {
+    return "exitcode=77:detect_leaks=0:abort_on_error=0:halt_on_error=1";
+}
+extern "C" __attribute__((used, visibility("default"))) const char* __ubsan_default_options() {
+    return "exitcode=77:halt_on_error=1:print_stacktrace=1";
+}
+
 namespace vf {
 
 // ---------------------------------------------------------------- PRNG
